@@ -81,7 +81,7 @@ def make_geometry(rng, cls_name, n=None):
             atoms.append(Atom(rng.choice(list(Element)), atype=AtomType.Dummy))     # a dummy-typed atom that has an element
         else:
             atoms.append(Atom(rng.choice(list(Element))))
-    g = cls(atoms, name=rng.choice(["g", "name with spaces", "ünicode", "x" * 40, "12"]), coords=rand_coords(rng, n) if n else None)
+    g = cls(atoms, name=rng.choice(["g", "name with spaces", "ünicode", "x" * 40, "12", "", "   ", "7"]), coords=rand_coords(rng, n) if n else None)
     if cls_name in ("Structure", "Molecule") and n >= 2:
         for _ in range(rng.randrange(0, n)):
             i, j = rng.sample(range(n), 2)
